@@ -66,7 +66,7 @@ SHARD_TIMEOUT = {'quick': 300, 'thorough': 1500}
 
 SIZES = {
     # random = programs per shard (each runs on datasets_per_batch data sets); enum_stride: every n-th enumerated program
-    'quick': dict(random=2000, batches=5, datasets_per_batch=4, depth=4, enum_per_type=1, enum_reduced=True, enum_stride=4, limit=360),
+    'quick': dict(random=2000, batches=5, datasets_per_batch=5, depth=4, enum_per_type=1, enum_reduced=True, enum_stride=4, limit=360),
     'thorough': dict(random=6000, batches=12, datasets_per_batch=4, depth=5, enum_per_type=1, enum_reduced=False, enum_stride=1, limit=700),
 }
 EXEC = ('postgres', 'mysql')
@@ -187,7 +187,7 @@ class Harness(object):
             ctx.finding(extra['finding'], self.witness(name, program, v, r, detail, extra))
         elif out == 'disagree':
             w = self.witness(name, program, v, r, detail, extra)
-            if shrink:
+            if shrink and ctx.counters.get('violations_seen', 0) < 4:       # shrinking reloads data: first few only
                 try: w = self.shrunk_witness(name, program, w)
                 except Exception: pass
             ctx.violation(w, mechanism=extra.get('mechanism', 'dialect-disagreement:' + LABEL[name]))
@@ -232,15 +232,21 @@ class Harness(object):
         if st == 'no_reference': return 'no_reference', None, {}
         if v.outcome in ('known', 'disagree'): return 'c01_disagreement', 'sqlite_' + v.outcome, {}
         # SQLite agrees with the reference, this dialect does not: deviation-rule pass
-        sql = '\n'.join(e['sql'] for e in r.statements).lower()
+        fid, variant = self.deviation_pass(name, program, r, lambda r2: qdiff.compare(r2, rr)[0] in ('agree', 'lenient_agree'))
+        if fid: return 'finding', fid, {'finding': fid, 'variant': variant, 'detail': detail}
+        return 'disagree', detail, {}
+
+    def deviation_pass(self, name, program, r, accepts):
+        """Re-run the program with ONE function model of the dialect switched to the SQLite/Python reading; the finding is
+        identified only if the statements use that function and the switched run is accepted by `accepts`."""
+        sql = '\n'.join(e['sql'] for e in getattr(r, 'statements', [])).lower()
         for dname, variant, markers, fid in DEVIATIONS:
             if dname != name or not any(m in sql for m in markers): continue
             self.xd.set_variant(name, variant)
             try: r2 = self.run_dialect(name, program)
             finally: self.xd.set_variant(name, None)
-            if r2.kind != 'raised' and qdiff.compare(r2, rr)[0] in ('agree', 'lenient_agree'):
-                return 'finding', fid, {'finding': fid, 'variant': variant, 'detail': detail}
-        return 'disagree', detail, {}
+            if r2.kind != 'raised' and accepts(r2): return fid, variant
+        return None, None
 
     def same_bag(self, a, b):
         from collections import Counter
@@ -315,13 +321,19 @@ class Harness(object):
                 if out in ('agree_sqlite_noref', 'disagree_noref'): out = 'agree'
             else:
                 same = sq.kind == r.kind and sq.summary() == r.summary()
-                out, detail, extra = ('agree', None, {}) if same else \
-                    ('disagree', 'limited/ordered result differs from the SQLite-dialect result',
-                     {'mechanism': 'limit-offset-disagreement:' + LABEL[name]})
+                if same: out, detail, extra = 'agree', None, {}
+                else:
+                    fid, variant = self.deviation_pass(name, program, r, lambda r2: r2.kind == sq.kind and r2.summary() == sq.summary())
+                    if fid: out, detail, extra = 'finding', fid, {'finding': fid, 'variant': variant}
+                    else: out, detail, extra = 'disagree', 'limited/ordered result differs from the SQLite-dialect result', \
+                        {'mechanism': 'limit-offset-disagreement:' + LABEL[name]}
             nonempty = r.kind == 'rows' and len(r.rows) > 0 or r.kind == 'scalar' and r.value is not None
             ctx.case(fingerprint=[program.key(), env.data_id, name, 'limit'], nontrivial=out in ('agree', 'disagree', 'generated'))
             self.note(name, 'limit.' + out, detail)
             if out == 'agree' and nonempty: ctx.count('limit_agree_nonempty.' + name)
+            if out == 'finding':
+                ctx.count('finding.' + extra['finding'])
+                ctx.finding(extra['finding'], self.witness(name, program, v, r, detail, extra))
             if out == 'disagree':
                 ctx.violation(self.witness(name, program, v, r, detail, extra),
                               mechanism=extra.get('mechanism', 'limit-offset-disagreement:' + LABEL[name]))
@@ -426,7 +438,7 @@ def run(ctx):
     base_dom = dict(gen.dom)
     per_batch = max(1, sz['random'] // sz['batches'])
     for b in range(sz['batches']):
-        datas = [qdiff.gen_data(schema, rng, neutral=True, flavor=fl) for fl in (None, 'dense', 'mixed', 'sparse')[:sz['datasets_per_batch']]]
+        datas = [qdiff.gen_data(schema, rng, neutral=True, flavor=fl) for fl in (None, 'dense', 'mixed', 'sparse', None, 'mixed')[:sz['datasets_per_batch']]]
         gen.dom = data_domain(datas, base_dom, rng)
         batch = []
         while len(batch) < per_batch:
